@@ -7,6 +7,7 @@ import (
 	"regexp"
 	"sort"
 	"strings"
+	"time"
 
 	"github.com/theparanoids/ysshra/gensign"
 	"github.com/theparanoids/ysshra/keyid"
@@ -358,6 +359,18 @@ func checkProvisioning(o *sim.Outcome, w *world, ri int, run *GRun, ob *runObs, 
 			o.Fail("C03.lifetime", "short_lifetime:"+what, step, "the RA added a %s with lifetime %d s, shorter than the certificate validity %d s", what, ad.id.LifetimeSecs, p.ValiditySec)
 		}
 	}
+	// ... nor shorter than the validity the RA itself asked the CA for in this run (the certificate it gets)
+	var asked uint64
+	for _, c := range ob.ca {
+		if !c.stub && c.req != nil && c.req.GetValidity() > asked {
+			asked = c.req.GetValidity()
+		}
+	}
+	for _, ad := range ob.adds {
+		if ad.id != nil && ad.id.LifetimeSecs != 0 && uint64(ad.id.LifetimeSecs) < asked {
+			o.Fail("C03.lifetime", "shorter_than_requested", step, "the RA asked the CA for a validity of %d s and added an identity with lifetime %d s", asked, ad.id.LifetimeSecs)
+		}
+	}
 	// identities that do not carry the handler's label are never removed or altered
 	now := ob.nowAfter
 	for _, b := range ob.before {
@@ -406,7 +419,10 @@ func checkProvisioning(o *sim.Outcome, w *world, ri int, run *GRun, ob *runObs, 
 		// new plain key present
 		for _, ad := range ob.adds {
 			if ad.id != nil && ad.id.Cert == nil && ad.ok {
-				if hasBlob(ob.after, ad.id.Blob) == nil && uint64(ad.id.LifetimeSecs) > 0 {
+				// (a key whose finite lifetime ran out while the run was still waiting for a slow CA is gone by design: the
+				// whole simulated duration of the run is an upper bound of the key's age)
+				if hasBlob(ob.after, ad.id.Blob) == nil && uint64(ad.id.LifetimeSecs) > 0 &&
+					ob.nowAfter.Sub(ob.nowBefore) < time.Duration(ad.id.LifetimeSecs)*time.Second {
 					o.Fail("C03.usable", "new_key_missing", step, "the freshly generated private key is no longer in the agent after a successful run")
 				}
 			}
